@@ -348,7 +348,7 @@ func runC18(c *Ctx) {
 func runCagedFamily(c *Ctx, family, scenario, title string) {
 	t0 := time.Now()
 	total, _ := CageFamilies[family](c.Tier)
-	var done, died int64
+	var done, died, accepted int64
 	outcomes := map[string]int{}
 	env.RunCaged(0, total, explore.Workers(), 20*time.Second, []string{"-child", family, "-tier", c.Tier}, func(r env.CageResult) {
 		done++
@@ -358,10 +358,13 @@ func runCagedFamily(c *Ctx, family, scenario, title string) {
 		}
 		outcomes[key]++
 		if strings.HasPrefix(r.Outcome, "ok") {
+			if r.Outcome != "ok error" {
+				accepted++
+			}
 			return
 		}
 		died++
-		shape := "panic"
+		shape := normShape(r.Outcome)
 		if strings.HasPrefix(r.Outcome, "DIED") {
 			shape = "fatal"
 		} else if strings.HasPrefix(r.Outcome, "HANG") {
@@ -369,6 +372,11 @@ func runCagedFamily(c *Ctx, family, scenario, title string) {
 		}
 		c.R.Report(&ev.Fail{Scenario: scenario, Case: r.ID, API: family, Shape: shape, What: fmt.Sprintf("case %d: %s", r.ID, trunc(r.Outcome, 400))})
 	})
+	if c.R.Level == "fault_enumeration" {
+		c.R.SetExtra("evaluations", done)
+		c.R.SetExtra("distinct_nontrivial", accepted)
+		c.R.SetExtra("rule", "cases are enumerated deterministically: every seed stream x every mutation of the stated families x every entry point, each a distinct (bytes, entry point) pair; a case is non-trivial when the decoder accepted the bytes, so that the post-decode oracles (Validate, then the genuine-set battery) actually ran")
+	}
 	c.R.AddScenario(ev.ScenarioStat{Name: title, States: done, Transitions: done, Exhaustive: done == int64(total), Bound: fmt.Sprintf("%d cases enumerated, %d executed", total, done), Outcomes: len(outcomes), Extra: map[string]any{"outcome_histogram": outcomes}, WallS: time.Since(t0).Seconds()})
 }
 
@@ -389,4 +397,28 @@ func replayCaged(c *Ctx, family string) {
 			c.R.Report(&ev.Fail{Scenario: c.Replay.Scenario, Case: id, API: family, Shape: "replay", What: r.Outcome})
 		}
 	})
+}
+
+// normShape turns a VIOL outcome into a class label: the input description in [...] and all digits are dropped.
+func normShape(out string) string {
+	if i := strings.Index(out, " ["); i > 0 {
+		if j := strings.Index(out[i:], "]"); j > 0 {
+			out = out[:i] + out[i+j+1:]
+		}
+	}
+	var sb strings.Builder
+	for _, r := range out {
+		if r >= '0' && r <= '9' {
+			continue
+		}
+		sb.WriteRune(r)
+	}
+	s := sb.String()
+	if i := strings.Index(s, " @ "); i > 0 {
+		s = s[:i]
+	}
+	if len(s) > 140 {
+		s = s[:140]
+	}
+	return s
 }
